@@ -1,11 +1,11 @@
 package main
 
 import (
-	"strings"
-	"sort"
 	"fmt"
 	"go/token"
 	"go/types"
+	"sort"
+	"strings"
 
 	"golang.org/x/tools/go/ssa"
 )
@@ -139,7 +139,7 @@ func (p *Prog) isLiteralPredicate(f *ssa.Function) bool {
 	if res.Len() == 0 {
 		return false
 	}
-	if bt, ok := res.At(res.Len()-1).Type().Underlying().(*types.Basic); !ok || bt.Kind() != types.Bool {
+	if bt, ok := res.At(res.Len() - 1).Type().Underlying().(*types.Basic); !ok || bt.Kind() != types.Bool {
 		return false
 	}
 	isLitSuccessEdge := func(from, to *ssa.BasicBlock) bool {
@@ -1577,6 +1577,7 @@ func ruleAdmitClass(p *Prog, r *Result) {
 		}
 		r.note("static_types_supported_by_equality", keysOf(eqSupported))
 	}
+	o2s, _ := p.mapLiteral("OperatorToString")
 	n := 0
 	var opVals []int64
 	for v := range ops {
@@ -1590,6 +1591,7 @@ func ruleAdmitClass(p *Prog, r *Result) {
 			continue
 		}
 		supported := map[string]bool{"TSTR": true, "TNUMBER": true}
+		arith := len(en.Consts) > 0 && strings.HasPrefix(en.Consts[0], "b:")
 		bothSides := false
 		supportedConst := int64(-1)
 		classNote := fmt.Sprintf("is evaluated by %s for text and %s otherwise", es.Callee.Name(), en.Callee.Name())
@@ -1611,7 +1613,11 @@ func ruleAdmitClass(p *Prog, r *Result) {
 				supported = eqSupported
 				classNote = fmt.Sprintf("is evaluated by %s, whose type switch covers the representations of %v only", es.Callee.Name(), keysOf(eqSupported))
 			default:
-				continue
+				if !arith {
+					continue
+				}
+				supported = map[string]bool{"TNUMBER": true}
+				classNote = fmt.Sprintf("is evaluated by %s for every operand class", en.Callee.Name())
 			}
 		}
 		// the typing helper of this operator
@@ -1635,6 +1641,113 @@ func ruleAdmitClass(p *Prog, r *Result) {
 			tvals = append(tvals, tv)
 		}
 		sort.Slice(tvals, func(i, j int) bool { return tvals[i] < tvals[j] })
+		rejectsT := func(tv int64, side string, otherTv int64) string {
+			fieldOf := map[string]string{"left": "Left", "right": "Right"}
+			other := map[string]string{"left": "right", "right": "left"}[side]
+			roleOf := func(fn *ssa.Function, x ssa.Value, bound map[*ssa.Parameter]string) string {
+				x = stripConv(x)
+				if pa, ok := x.(*ssa.Parameter); ok {
+					return bound[pa]
+				}
+				for role, f := range fieldOf {
+					if isFieldLoad(x, "BinaryOpExpr", f) {
+						return role
+					}
+				}
+				return ""
+			}
+			rtRecvOf := func(c *ssa.Call) ssa.Value {
+				if c.Call.IsInvoke() {
+					return c.Call.Value
+				}
+				if len(c.Call.Args) > 0 {
+					return c.Call.Args[0]
+				}
+				return nil
+			}
+			as := &assumption{p: p}
+			as.leaf = func(fn *ssa.Function, x ssa.Value, bound map[*ssa.Parameter]string) (aval, bool) {
+				if isOp(x) {
+					return aval{kind: 1, i: v}, true
+				}
+				// the operator's spelling (op := OperatorToString[e.Op]; op == "+") as a code
+				if lk, ok := x.(*ssa.Lookup); ok && isOp(lk.Index) {
+					if sp, has := o2s[fmt.Sprint(v)]; has {
+						return aval{kind: 1, i: strCodeOf(sp)}, true
+					}
+				}
+				if sc, ok := constString(x); ok {
+					return aval{kind: 1, i: strCodeOf(sc)}, true
+				}
+				if c, ok := x.(*ssa.Call); ok && isRT(x) {
+					if rv := rtRecvOf(c); rv != nil {
+						switch roleOf(fn, rv, bound) {
+						case side:
+							return aval{kind: 1, i: tv}, true
+						case other:
+							if otherTv >= 0 {
+								return aval{kind: 1, i: otherTv}, true
+							}
+						}
+					}
+					return aval{}, true // unknown by itself
+				}
+				// ... but the two operands' types agree wherever the helper compares them (when the scenario leaves the other open)
+				if bo, ok := x.(*ssa.BinOp); ok && otherTv < 0 && (bo.Op == token.EQL || bo.Op == token.NEQ) && isRT(bo.X) && isRT(bo.Y) {
+					if bo.Op == token.EQL {
+						return aval{kind: 2, b: abTrue}, true
+					}
+					return aval{kind: 2, b: abFalse}, true
+				}
+				return aval{}, false
+			}
+			as.typeTest = func(fn *ssa.Function, ta *ssa.TypeAssert, bound map[*ssa.Parameter]string) (abool, bool) {
+				want := int64(-1)
+				switch roleOf(fn, ta.X, bound) {
+				case side:
+					want = tv
+				case other:
+					want = otherTv
+				}
+				if want < 0 {
+					return abBoth, false
+				}
+				if nt := namedOf(ta.AssertedType); nt != nil {
+					if ft, fixed := p.fixedReturnType(nt); fixed && ft != want {
+						return abFalse, true
+					}
+				}
+				return abBoth, false
+			}
+			as.bind = func(fn *ssa.Function, arg ssa.Value, bound map[*ssa.Parameter]string) string {
+				if role := roleOf(fn, arg, bound); role == "left" || role == "right" {
+					return role
+				}
+				if pa, ok := stripConv(arg).(*ssa.Parameter); ok && (bound[pa] == "node" || (fn == helper && len(fn.Params) > 0 && pa == fn.Params[0])) {
+					return "node"
+				}
+				return ""
+			}
+			res := as.run(helper, map[*ssa.Parameter]string{helper.Params[0]: "node"})
+			acc := ""
+			for _, ret := range res.rets {
+				ev := res.ev(retVal(ret, 0))
+				// `if err != nil { return err }`: non-nil on this path whatever the summary of its producer says
+				nonNilHere := false
+				for _, a := range dominatingAtoms(ret.Block()) {
+					if a.Op == token.NEQ && a.X == retVal(ret, 0) && isNilConst(a.Y) {
+						nonNilHere = true
+					}
+				}
+				if nonNilHere {
+					continue
+				}
+				if isNilConst(retVal(ret, 0)) || (ev.kind == 3 && ev.isNil != abFalse) || ev.kind == 0 {
+					acc = p.InstrPos(ret)
+				}
+			}
+			return acc
+		}
 		for _, tv := range tvals {
 			tn := types_[tv]
 			if supported[tn] {
@@ -1644,94 +1757,7 @@ func ruleAdmitClass(p *Prog, r *Result) {
 			// assumption: the operator is `v`, one operand (`side`) has static type tv, and wherever the helper compares
 			// the two operands' types they agree (unless the other operand's type is fixed by the scenario). Roles:
 			// "left"/"right" = the operand (the field, or a parameter bound to it at a call), "node" = the operator node.
-			rejects := func(side string, otherTv int64) string {
-				fieldOf := map[string]string{"left": "Left", "right": "Right"}
-				other := map[string]string{"left": "right", "right": "left"}[side]
-				roleOf := func(fn *ssa.Function, x ssa.Value, bound map[*ssa.Parameter]string) string {
-					x = stripConv(x)
-					if pa, ok := x.(*ssa.Parameter); ok {
-						return bound[pa]
-					}
-					for role, f := range fieldOf {
-						if isFieldLoad(x, "BinaryOpExpr", f) {
-							return role
-						}
-					}
-					return ""
-				}
-				rtRecvOf := func(c *ssa.Call) ssa.Value {
-					if c.Call.IsInvoke() {
-						return c.Call.Value
-					}
-					if len(c.Call.Args) > 0 {
-						return c.Call.Args[0]
-					}
-					return nil
-				}
-				as := &assumption{p: p}
-				as.leaf = func(fn *ssa.Function, x ssa.Value, bound map[*ssa.Parameter]string) (aval, bool) {
-					if isOp(x) {
-						return aval{kind: 1, i: v}, true
-					}
-					if c, ok := x.(*ssa.Call); ok && isRT(x) {
-						if rv := rtRecvOf(c); rv != nil {
-							switch roleOf(fn, rv, bound) {
-							case side:
-								return aval{kind: 1, i: tv}, true
-							case other:
-								if otherTv >= 0 {
-									return aval{kind: 1, i: otherTv}, true
-								}
-							}
-						}
-						return aval{}, true // unknown by itself
-					}
-					// ... but the two operands' types agree wherever the helper compares them (when the scenario leaves the other open)
-					if bo, ok := x.(*ssa.BinOp); ok && otherTv < 0 && (bo.Op == token.EQL || bo.Op == token.NEQ) && isRT(bo.X) && isRT(bo.Y) {
-						if bo.Op == token.EQL {
-							return aval{kind: 2, b: abTrue}, true
-						}
-						return aval{kind: 2, b: abFalse}, true
-					}
-					return aval{}, false
-				}
-				as.typeTest = func(fn *ssa.Function, ta *ssa.TypeAssert, bound map[*ssa.Parameter]string) (abool, bool) {
-					want := int64(-1)
-					switch roleOf(fn, ta.X, bound) {
-					case side:
-						want = tv
-					case other:
-						want = otherTv
-					}
-					if want < 0 {
-						return abBoth, false
-					}
-					if nt := namedOf(ta.AssertedType); nt != nil {
-						if ft, fixed := p.fixedReturnType(nt); fixed && ft != want {
-							return abFalse, true
-						}
-					}
-					return abBoth, false
-				}
-				as.bind = func(fn *ssa.Function, arg ssa.Value, bound map[*ssa.Parameter]string) string {
-					if role := roleOf(fn, arg, bound); role == "left" || role == "right" {
-						return role
-					}
-					if pa, ok := stripConv(arg).(*ssa.Parameter); ok && (bound[pa] == "node" || (fn == helper && len(fn.Params) > 0 && pa == fn.Params[0])) {
-						return "node"
-					}
-					return ""
-				}
-				res := as.run(helper, map[*ssa.Parameter]string{helper.Params[0]: "node"})
-				acc := ""
-				for _, ret := range res.rets {
-					ev := res.ev(retVal(ret, 0))
-					if isNilConst(retVal(ret, 0)) || (ev.kind == 3 && ev.isNil != abFalse) || ev.kind == 0 {
-						acc = p.InstrPos(ret)
-					}
-				}
-				return acc
-			}
+			rejects := func(side string, otherTv int64) string { return rejectsT(tv, side, otherTv) }
 			accepted := rejects("left", -1)
 			if accepted == "" && bothSides {
 				// the right operand of a logic operator: a Boolean left operand does not excuse a non-Boolean right one
@@ -1742,8 +1768,35 @@ func ruleAdmitClass(p *Prog, r *Result) {
 			}
 			r.add(accepted == "", fmt.Sprintf("%s|%s", name, tn), p.Pos(helper.Pos()), fmt.Sprintf("operator %s %s; its typing helper %s must reject operands of static type %s%s", name, classNote, helper.Name(), tn, map[bool]string{true: " but accepts them at " + accepted}[accepted != ""]))
 		}
+		if arith {
+			// arithmetic: the evaluator handles number with number (and text with text where a text variant is dispatched);
+			// every other pair of static operand types must be rejected, whichever side carries which type
+			textVariant := es.Callee != en.Callee
+			for _, lt := range tvals {
+				for _, rt := range tvals {
+					ln, rn := types_[lt], types_[rt]
+					if (ln == "TNUMBER" && rn == "TNUMBER") || (textVariant && ln == "TSTR" && rn == "TSTR") {
+						continue
+					}
+					if !supported[ln] {
+						continue // decided above with the right operand left open
+					}
+					n++
+					accepted := rejectsT(lt, "left", rt)
+					r.add(accepted == "", fmt.Sprintf("%s|%s,%s", name, ln, rn), p.Pos(helper.Pos()), fmt.Sprintf("arithmetic operator %s must reject a %s left operand with a %s right operand%s", name, ln, rn, map[bool]string{true: " but accepts them at " + accepted}[accepted != ""]))
+				}
+			}
+		}
 	}
 	r.floor("(class-dispatched operator, unsupported static type) pairs", n, 20)
+}
+
+func strCodeOf(s string) int64 {
+	var h int64 = 1469598103934665603
+	for i := 0; i < len(s); i++ {
+		h = (h ^ int64(s[i])) * 1099511628211
+	}
+	return h
 }
 
 // fixedReturnType: every return of T.ReturnType is the same constant.
